@@ -150,12 +150,15 @@ def install():
                     return
                 ref_sel = [R[np.ix_(sel, sel)] for R in ref]
                 undefined = np.zeros(len(sel), dtype=bool)
+                weight = None
                 if kind == "get_acorr":
                     var = np.diag(ref_sel[0]).copy()
                     sd = np.sqrt(np.where(var > 0, var, np.nan))
                     undefined = ~np.isnan(var) & ~(var > 1e-14 * (1 + np.nanmax(np.abs(var))))   # zero-variance variable: correlation undefined
                     with np.errstate(all="ignore"):
                         ref_sel = [R / np.outer(sd, sd) for R in ref_sel]
+                    weight = np.outer(np.nan_to_num(sd), np.nan_to_num(sd))   # correlations are compared in covariance units:
+                    # a variable with a tiny (but non-zero) variance amplifies rounding in cov/(sd_i sd_j) by max var / var
                 key = (c.case.get("family") if isinstance(c.case, dict) else "?", len(xi_tokens), len(y_tokens), info["n_unit"], info["n_nonstat"],
                        up_to_order, nvar, bool((su == 0).any()))
                 c.event(kind, f"order<={up_to_order}", key=key,
@@ -180,6 +183,9 @@ def install():
                                     detail={"order": j, "entry": [i, k]})
                         return
                     ok = ~nan_ref
+                    if weight is not None:
+                        G = np.where(ok, G * weight, G)
+                        R = np.where(ok, R * weight, R)
                     scale = 1 + np.nanmax(np.abs(R[ok])) if ok.any() else 1.0
                     err = np.abs(G[ok] - R[ok]).max() if ok.any() else 0.0
                     tol = 1e-8 * scale * max(1.0, info["condV"] / 1e3)
@@ -311,7 +317,8 @@ def run_case(c, case):
                     c.violation("rescale:nan-pattern-changes", f"variant {v} order {j}")
                     return
                 ok = ~np.isnan(A0)
-                if ok.any() and np.abs(A1[ok] - s * s * A0[ok]).max() > 1e-9 * (1 + np.abs(A1[ok]).max()):
+                # matrix-level scale: with highly persistent roots the Lyapunov solve amplifies rounding by ~1/(1-|lambda|^2)
+                if ok.any() and np.abs(A1[ok] - s * s * A0[ok]).max() > 1e-7 * (1 + np.abs(A1[ok]).max()):
                     c.violation("rescale:not-quadratic", f"variant {v} order {j}: acov after rescale_stds({s}) differs from {s}^2 * acov")
                     return
 
